@@ -1,6 +1,7 @@
 import RV.C16.LemJson
 import RV.C16.LemXml
 import RV.C16.LemCsv
+import RV.C16.LemLazy
 /-
   C16 — helper lemmas, split by format:
     LemJson    binding dicts vs aligned rows, `parseJsonTerm ∘ termToJSON`
@@ -11,4 +12,5 @@ import RV.C16.LemCsv
     LemTsvCell one cell; no tab / line feed inside a rendered cell
     LemTsvDoc  header, lines, rows, document
     LemCsv     CSV fields
+    LemLazy    the lazily evaluated Result: materialised ++ pending is invariant
 -/
